@@ -154,7 +154,11 @@ func check(c Case, o *vf.Obs) error {
 	} else {
 		other.Entry = "reader"
 	}
-	for _, cert := range [][][]int{{{}}, c.Cert[:len(c.Cert)/2]} {
+	followUps := [][][]int{{{}}, c.Cert[:len(c.Cert)/2]}
+	for v := 1; v <= c.N; v++ { // every single-literal certificate: exposes facts left bound by the first check
+		followUps = append(followUps, [][]int{{v}}, [][]int{{-v}})
+	}
+	for _, cert := range followUps {
 		other.Cert = cert
 		fresh, err := problem(c)
 		if err != nil {
